@@ -254,8 +254,10 @@ func SweepLengths(tier string, long bool) []int {
 	for _, p := range []int{64, 128, 192, 256, 384, 512, 1024} {
 		ls = append(ls, p-1, p, p+1)
 	}
+	// 2^14: where element counts and byte lengths start to need a third varint byte
+	ls = append(ls, 16383, 16384, 16385)
 	if long {
-		ls = append(ls, 2047, 2048, 2049, 16383, 16384, 16385)
+		ls = append(ls, 2047, 2048, 2049)
 		if tier == "thorough" {
 			ls = append(ls, 65535, 65536, 1<<21-1, 1<<21)
 		}
@@ -266,7 +268,13 @@ func SweepLengths(tier string, long bool) []int {
 // SizeSweep is the size dimension of the universe: one item per container shape, nested in a
 // struct inside a struct (so that the enclosing length prefixes cross their boundaries too),
 // with one value per length, elements all distinct.
-func SizeSweep(tier string) []Item {
+func SizeSweep(tier string) []Item { return sizeSweep(tier, false) }
+
+// BigMaps is the part of the size sweep with maps of 2^14 entries (where the entry count needs a
+// third varint byte); only checks whose oracle is linear in the map size use it (C01).
+func BigMaps(tier string) []Item { return sizeSweep(tier, true) }
+
+func sizeSweep(tier string, bigMaps bool) []Item {
 	L := Leaf
 	type shape struct {
 		t    *T
@@ -310,6 +318,12 @@ func SizeSweep(tier string) []Item {
 		top := Struct(Fld(1, inner), F{Name: "Z", Index: 9, T: L(KInt)})
 		var vals []V
 		for _, n := range SweepLengths(tier, sh.long) {
+			if sh.t.K == KMap && n > 2000 && !bigMaps {
+				continue // unordered matching of the byte- and JSON-level oracles is quadratic: see BigMaps
+			}
+			if bigMaps && (sh.t.K != KMap || n <= 2000) {
+				continue
+			}
 			var x V
 			switch {
 			case sh.elem == nil:
@@ -331,6 +345,9 @@ func SizeSweep(tier string) []Item {
 				}
 			}
 			vals = append(vals, V{E: []V{{E: []V{x, {U: 7}}}, {U: 9}}})
+		}
+		if len(vals) == 0 {
+			continue
 		}
 		out = append(out, Item{T: top, Base: sh.t, Opt: sh.opt, Pos: "sweep", Vals: vals})
 	}
